@@ -203,4 +203,36 @@ def run(ctx):
             if ref is None: ref = fun
             elif abs(fun - ref) > (2e-3 if opt == 'minuit' else 1e-5) * (1 + abs(ref)):
                 ctx.fail('C05/configuration-dependence', 'attained objective depends on stitch/grad/optimiser/backend beyond tolerance', inp, fun, ref)
+    # ---------------- histories: a fit must not depend on the options of earlier fits on the same optimiser object (per-call solver
+    # options, tolerances, iteration limits are per call); compared with the same fit on a fresh optimiser
+    for h in range(ctx.n(6, 60)):
+        spec, _ = gen_spec.gen_spec(rng, max_channels=2, max_samples=2, max_bins=2, simple=True)
+        pyhf.set_backend('numpy', 'scipy')
+        try:
+            m = pyhf.Model(spec, poi_name='mu')
+        except Exception:  # noqa
+            continue
+        init = m.config.suggested_init(); bounds = m.config.suggested_bounds(); fixed = m.config.suggested_fixed()
+        data = [float(max(0.0, round(x + rng.uniform(-1, 1) * (x ** 0.5)))) for x in m.expected_actualdata(np.asarray(init))] + m.config.auxdata
+        for optname, loose in (('scipy', [{'solver_options': {'ftol': 0.5}}, {'maxiter': 1}, {'tolerance': 10.0}]), ('minuit', [{'tolerance': 50.0}, {'maxiter': 1}, {'strategy': 0}])):
+            mk = (lambda: pyhf.optimize.scipy_optimizer()) if optname == 'scipy' else (lambda: pyhf.optimize.minuit_optimizer())
+            try:
+                pyhf.set_backend('numpy', mk())
+                fresh = float(pyhf.infer.mle.fit(data, m, init, bounds, fixed, return_fitted_val=True)[1])
+            except Exception:  # noqa
+                continue
+            pyhf.set_backend('numpy', mk())
+            kw = rng.choice(loose)
+            try:
+                pyhf.infer.mle.fit(data, m, init, bounds, fixed, **kw)
+            except Exception:  # noqa — a fit that is cut short may report failure; what matters is the next one
+                pass
+            try:
+                after = float(pyhf.infer.mle.fit(data, m, init, bounds, fixed, return_fitted_val=True)[1])
+            except Exception as e:  # noqa
+                ctx.fail('C05/history-dependence', f'a default fit raises {type(e).__name__} after an earlier fit with per-call options on the same optimiser', {'spec': spec, 'data': data, 'optimizer': optname, 'earlier_options': kw}, str(e)[:150]); continue
+            ctx.count(); ctx.tally('history_fit', optname)
+            if abs(after - fresh) > (2e-3 if optname == 'minuit' else 1e-6) * (1 + abs(fresh)):
+                ctx.fail('C05/history-dependence', 'the objective a default fit attains depends on the per-call options of an earlier fit on the same optimiser object',
+                         {'spec': spec, 'data': data, 'optimizer': optname, 'earlier_options': kw}, after, fresh)
     pyhf.set_backend('numpy', 'scipy')
